@@ -2242,6 +2242,11 @@ TRANSPARENT = {
     "core::option::Option::map_or", "core::option::Option::map_or_else", "core::option::Option::unwrap_or_else",
     "core::iter::traits::iterator::Iterator::fold", "core::iter::traits::iterator::Iterator::copied",
     "core::cmp::Ord::max", "core::cmp::Ord::min", "core::cmp::max", "core::cmp::min", "core::option::Option::as_deref",
+    # adaptors that hand on elements of their receivers unchanged (they add no value of their own to what flows through)
+    "core::iter::traits::iterator::Iterator::chain", "core::iter::traits::iterator::Iterator::rev", "core::iter::traits::iterator::Iterator::skip",
+    "core::iter::traits::iterator::Iterator::take", "core::iter::traits::iterator::Iterator::filter", "core::iter::traits::iterator::Iterator::filter_map",
+    "core::iter::traits::iterator::Iterator::flat_map", "core::iter::traits::iterator::Iterator::peekable", "core::iter::traits::iterator::Iterator::by_ref",
+    "core::iter::traits::iterator::Iterator::step_by", "core::iter::traits::iterator::Iterator::flatten",
 }
 TRANSPARENT_LAST = {"iter", "as_ref", "as_slice", "as_str", "as_bytes", "deref", "borrow", "values", "keys"}
 
